@@ -85,14 +85,37 @@ type rowAdder interface {
 // BuildIndex writes rows with the given writer kind to path and returns the ids AddRow returned.
 func BuildIndex(kind, path string, rows []Row) ([]uint32, error) {
 	ids := make([]uint32, 0, len(rows))
+	// how the caller treats the map it hands to AddRow (a function of the case, not of the path): a fresh map
+	// per row that is left alone; ONE map, cleared and refilled for every row; a fresh map that is overwritten
+	// with junk as soon as AddRow has returned. A writer may not keep the map.
+	style := simrt.HashStr(kind) % 3
+	if len(rows) > 0 {
+		style = (simrt.HashStr(kind) ^ simrt.HashStr(fmt.Sprint(len(rows), rows[len(rows)/2]))) % 3
+	}
 	add := func(w rowAdder) error {
+		shared := map[string]string{}
 		for _, r := range rows {
-			id, err := w.AddRow(r.Map())
+			m := r.Map()
+			if style == 1 {
+				clear(shared)
+				for k, v := range m {
+					shared[k] = v
+				}
+				m = shared
+			}
+			id, err := w.AddRow(m)
 			if err != nil {
 				return fmt.Errorf("AddRow: %w", err)
 			}
 			ids = append(ids, id)
+			if style == 2 {
+				for k := range m {
+					m[k] = "scribbled-after-AddRow"
+				}
+				m["scribbled-column"] = "x"
+			}
 		}
+		clear(shared)
 		return nil
 	}
 	switch kind {
